@@ -26,12 +26,19 @@ import (
 type verSide struct {
 	versions []int
 	legacy   bool
+	// legacyHigh: it is the HIGHEST version that goes through the legacy
+	// fields ("H" prefix) - the documented upgrade layout: ProtocolVersion and
+	// Plugins describe the current version, VersionedPlugins the older ones
+	legacyHigh bool
 }
 
 func parseSide(s string) verSide {
 	var vs verSide
 	if strings.HasPrefix(s, "L") {
 		vs.legacy = true
+		s = s[1:]
+	} else if strings.HasPrefix(s, "H") {
+		vs.legacy, vs.legacyHigh = true, true
 		s = s[1:]
 	}
 	for _, p := range strings.Split(s, ",") {
@@ -82,7 +89,7 @@ func subsets(univ []int) [][]int {
 func init() {
 	Register(&Prop{ID: "C02",
 		Meta: Meta{Level: "exploration",
-			Rule:       "real Client and real Serve in two simulated processes; host and plugin each configured with a set of application versions (VersionedPlugins, optionally the lowest one through the legacy ProtocolVersion+Plugins fields), each version's plugin set speaking net/rpc or gRPC and answering an identity tag v<k>/<proto>; the version list handed to the plugin is left intact, deleted (old host) or partly corrupted by a runner wrapper. Complete enumeration of all pairs of non-empty subsets of {1,2,3} x all 8 protocol assignments x legacy folding on neither/host/plugin side (1176 runs), plus version 0, sets over {0..4}, corrupted lists and schedule noise in the seeded part. Oracle = reference: highest common version, else (no list) the plugin's lowest, else start error naming the incompatibility with the process terminated; compared against the version field of the raw handshake line (kernel tap), NegotiatedVersion(), Protocol() and the tag answered through a dispensed client",
+			Rule:       "real Client and real Serve in two simulated processes; host and plugin each configured with a set of application versions (VersionedPlugins, optionally the lowest one through the legacy ProtocolVersion+Plugins fields), each version's plugin set speaking net/rpc or gRPC and answering an identity tag v<k>/<proto>; the version list handed to the plugin is left intact, deleted (old host) or partly corrupted by a runner wrapper. Complete enumeration of all pairs of non-empty subsets of {1,2,3} x all 8 protocol assignments x legacy folding on neither/host/plugin side (1176 runs), the upgrade layout (the HIGHEST version through the legacy fields) against hosts with and without a version list, plus version 0, sets over {0..4}, corrupted lists and schedule noise in the seeded part. Oracle = reference: highest common version, else (no list) the plugin's lowest, else start error naming the incompatibility with the process terminated; compared against the version field of the raw handshake line (kernel tap), NegotiatedVersion(), Protocol() and the tag answered through a dispensed client",
 			Exhaustive: "all pairs of non-empty subsets of {1,2,3} x protocol assignment x legacy folding {none, host, plugin}"},
 		Plan: func(tier string, seed uint64, stage int, prev []*h.Result) []*k.Spec {
 			if stage > 0 {
@@ -98,6 +105,16 @@ func init() {
 								out = append(out, sp("C02", fmt.Sprintf("enum/h%s/p%s/m%d/%s", sideString(hs, false), sideString(ps, false), mask, leg), seed,
 									P("host", sideString(hs, leg == "host"), "plugin", sideString(ps, leg == "plugin"), "mask", strconv.Itoa(mask), "env", "normal")))
 							}
+						}
+					}
+				}
+			}
+			if tier != "selftest" {
+				// the upgrade layout: the highest version through the legacy fields
+				for _, pair := range [][2]string{{"1", "H1,2"}, {"2", "H1,2"}, {"1,2", "H1,2"}, {"L1", "H1,2"}, {"3", "H1,2"}, {"1", "H1,3"}, {"L2", "H1,2,3"}, {"H1,2", "1,2"}, {"H1,2", "H2,3"}, {"H2,3", "1"}} {
+					for _, env := range []string{"normal", "delete", "empty", "corrupt-all"} {
+						for _, m := range []string{"0", "4", "2", "10"} {
+							out = append(out, sp("C02", fmt.Sprintf("upgrade-layout/h%s/p%s/%s/m%s", pair[0], pair[1], env, m), seed, P("host", pair[0], "plugin", pair[1], "mask", m, "env", env)))
 						}
 					}
 				}
@@ -196,7 +213,7 @@ func buildSets(vs verSide, mask int, tagPrefix string, shared map[int]*plugins.S
 			shared[v] = sh
 		}
 		set := h.PluginSet(proto, sh)
-		if vs.legacy && i == 0 {
+		if vs.legacy && ((!vs.legacyHigh && i == 0) || (vs.legacyHigh && i == len(vs.versions)-1)) {
 			legacyVer, legacySet = v, set
 			continue
 		}
